@@ -289,7 +289,7 @@ static void DecodeISZ(Word Index) {
         ;
     else if (DecodeReg(&ArgStr[1], &Erg)) {
         Adr = EvalStrIntExpressionWithFlags(&ArgStr[2], UInt12, &OK, &Flags);
-        if (OK && ChkSamePage(EProgCounter() + 1, Adr, 8, Flags)) {
+        if (OK && ChkSamePage(EProgCounter() + 2, Adr, 8, Flags)) {
             BAsmCode[0] = 0x70 + Erg;
             BAsmCode[1] = Lo(Adr);
             CodeLen     = 2;
